@@ -1,13 +1,16 @@
 #!/usr/bin/env python3-vt
-"""Store confirmed seeded changes under /verif/seeded/<id>-<n>/ from the verification run in /var/tmp/seedfin_out.
+"""Store confirmed seeded changes under /verif/seeded/<id>-<n>/ from a verification run (tools/seed_final.sh) in /var/tmp/seedfin_out.
+usage: seed_store.py <source-root> <offset>   e.g.  /tmp/seed2 3  (seed <id>-<n> comes from <source-root>/<id>/_seed/*<n-offset>.*)
+       seed_store.py --refresh                re-base every stored patch.diff onto /repo HEAD and re-establish caught_by
 meta.json: property, what the change needs to manifest (from the author's notes), what was run, which checks report it."""
-import json, os, re, shutil, subprocess, sys, glob
+import json, os, re, shutil, subprocess, sys, glob, tempfile
 sys.path.insert(0, "/verif")
 from pgverif import selftest
 
 OUT = "/var/tmp/seedfin_out"
 props = {json.loads(l)["id"]: json.loads(l) for l in open("/verif/properties.jsonl")}
 head = subprocess.run(["git", "-C", "/repo", "log", "--format=%h", "-1"], capture_output=True, text=True).stdout.strip()
+ALL = [f"C{i:02d}" for i in range(1, 21)]
 
 
 def section(notes, n):
@@ -17,14 +20,62 @@ def section(notes, n):
         if pat.match(p.strip()):
             return p.strip()
     for p in parts:
-        if re.search(rf"(change|patch)\s*{n}\b", p.split("\n")[0], re.I):
+        if re.search(rf"(change|patch|seed)\s*{n}\b", p.split("\n")[0], re.I):
             return p.strip()
     return ""
 
 
+def caught_by(patch, cands):
+    from concurrent.futures import ThreadPoolExecutor
+    fired = {}
+    def one(c):
+        return c, selftest._one(c, "/repo", {"name": "seed", "patch": patch, "expect": "fire"}, "/var/tmp")
+    with ThreadPoolExecutor(max_workers=8) as ex:
+        for c, r in ex.map(one, cands):
+            if r["status"] == "ok" and r.get("reported"):
+                fired[c] = r["reported"][0]
+    return dict(sorted(fired.items()))
+
+
+def rebase(patch):
+    """re-express a patch against /repo HEAD (context may have moved after later fix commits); None if it no longer applies"""
+    wt = tempfile.mkdtemp(prefix="seedrebase-", dir="/var/tmp")
+    os.rmdir(wt)
+    subprocess.run(["git", "-C", "/repo", "worktree", "add", "--detach", wt, "HEAD"], capture_output=True)
+    try:
+        r = subprocess.run(["git", "apply", patch], cwd=wt, capture_output=True)
+        if r.returncode != 0:
+            r = subprocess.run(["patch", "-p1", "-s", "--fuzz=3", "-i", patch], cwd=wt, capture_output=True)
+            for junk in glob.glob(f"{wt}/**/*.orig", recursive=True) + glob.glob(f"{wt}/**/*.rej", recursive=True):
+                os.unlink(junk)
+            if r.returncode != 0:
+                return None
+        return subprocess.run(["git", "diff", "--", "src"], cwd=wt, capture_output=True, text=True).stdout
+    finally:
+        subprocess.run(["git", "-C", "/repo", "worktree", "remove", "--force", wt], capture_output=True)
+
+
+if sys.argv[1] == "--refresh":
+    for d in sorted(glob.glob("/verif/seeded/C*-*")):
+        mf = f"{d}/meta.json"
+        meta = json.load(open(mf))
+        new = rebase(f"{d}/patch.diff")
+        if new is None or not new.strip():
+            meta["applies_to"] = meta.get("applies_to", "") + f" [does NOT apply to {head}]"
+            print(os.path.basename(d), "DOES NOT APPLY to HEAD")
+        else:
+            open(f"{d}/patch.diff", "w").write(new)
+            meta["applies_to"] = f"/repo at {head} (git -C /repo apply patch.diff)"
+            meta["caught_by"] = caught_by(f"{d}/patch.diff", ALL if "--all" in sys.argv else sorted(set(meta.get("caught_by", {})) | {meta["property"]}))
+            print(os.path.basename(d), meta["caught_by"])
+        json.dump(meta, open(mf, "w"), indent=1)
+    sys.exit(0)
+
+SRC, OFF = sys.argv[1], int(sys.argv[2])
 for d in sorted(glob.glob(f"{OUT}/C*-*")):
     sid = os.path.basename(d)
     prop, n = sid.split("-")
+    n0 = int(n) - OFF
     res = json.load(open(f"{d}/result.json"))
     ok = res["apply"] == 0 and res["demo_clean_exit"] == 0 and res["demo_patched_exit"] != 0 and res["suite_lost"] == 0
     if not ok:
@@ -32,23 +83,20 @@ for d in sorted(glob.glob(f"{OUT}/C*-*")):
         continue
     dst = f"/verif/seeded/{sid}"
     os.makedirs(dst, exist_ok=True)
-    shutil.copy(f"{d}/patch.diff", f"{dst}/patch.diff")
-    src = f"/tmp/seed/{prop}/_seed"
-    demo = open(f"{src}/demo{n}.py").read().replace(f"/tmp/seed/{prop}", "<worktree>")
+    new = rebase(f"{d}/patch.diff")
+    open(f"{dst}/patch.diff", "w").write(new if new else open(f"{d}/patch.diff").read())
+    src = f"{SRC}/{prop}/_seed"
+    demo = open(f"{src}/demo{n0}.py").read().replace(f"{SRC}/{prop}", "<worktree>")
     open(f"{dst}/demo.py", "w").write(demo)
     notes = open(f"{src}/notes.md").read() if os.path.exists(f"{src}/notes.md") else ""
-    sec = section(notes, n)
-    fired = {}
-    cands = [l.split()[0] for l in open(f"{d}/checks.txt") if "rc=1" in l]
+    sec = section(notes, n0)
+    cands = [l.split()[0] for l in open(f"{d}/checks.txt") if "rc=1" in l or "rc=2" in l]
     if prop not in cands:
         cands.append(prop)
-    for c in cands:
-        r = selftest._one(c, "/repo", {"name": sid, "patch": f"{dst}/patch.diff", "expect": "fire"}, "/var/tmp")
-        if r["status"] == "ok" and r.get("reported"):
-            fired[c] = r["reported"][0]
     meta = {
         "id": sid, "property": prop, "title": props[prop]["title"],
-        "author": "fresh sub-agent given only the property text and a scratch worktree of /repo (nothing from /verif)",
+        "author": "fresh sub-agent given only the property text and a scratch worktree of /repo (nothing from /verif)"
+                  + ("; second round: also told the one-line headings of the first-round changes, to avoid repeating them" if OFF else ""),
         "needs_to_manifest": sec[:3000] or "see demo.py",
         "applies_to": f"/repo at {head} (git -C /repo apply patch.diff)",
         "what_was_run": {
@@ -57,7 +105,7 @@ for d in sorted(glob.glob(f"{OUT}/C*-*")):
             "pinned_suite_with_patch": "tools/suite_check.py: every test of BASELINE.stable_pass still passes (lost=0)",
             "demo_cmd": "PYTHONPATH=<worktree>/src /venv/bin/python <worktree>/_seed/demo.py",
         },
-        "caught_by": fired,
+        "caught_by": caught_by(f"{dst}/patch.diff", cands),
     }
     json.dump(meta, open(f"{dst}/meta.json", "w"), indent=1)
-    print(sid, "stored; caught by", fired)
+    print(sid, "stored; caught by", meta["caught_by"])
